@@ -249,3 +249,16 @@ def effects(ctx):
                 raise AnalysisError("pipeline", "%s: unrecognised update of the result: %s" % (stage, txt[:80]))
             out.append(Effect(stage, fn, n, kind[0], kind[1], full_guard(fn, n, atom_fn), txt, sign))
     return order, out
+
+
+def recovery_effects(ctx):
+    """assignments to params[...] in _parser._get_datetime_obj's recovery from an out-of-range day, with guards:
+    [(part, guard formula, node, fn)]"""
+    fn = ctx.ix.func(PARSER + "._get_datetime_obj")
+    atom_fn = make_atom_fn(fn, _aliases(fn))
+    out = []
+    for n in iter_own_nodes(fn.node):
+        if isinstance(n, ast.Assign) and isinstance(n.targets[0], ast.Subscript) and isinstance(n.targets[0].slice, ast.Constant) \
+                and n.targets[0].slice.value in ("day", "month", "year") and isinstance(n.targets[0].value, ast.Name):
+            out.append((n.targets[0].slice.value, G.guard_of(fn.node, n, atom_fn), n, fn))
+    return out
